@@ -144,6 +144,8 @@ func c14Step(h afero.File, ref *refFile, tag string) {
 		wn, weof, wok := ref.doRead(kc)
 		if !wok {
 			vm.Assert("C14.read_refused_like_reference", err != nil)
+			// (a negative count breaks io.Reader's contract: io.ReadAll and bytes.Buffer.ReadFrom panic on it)
+			vm.Assert("C14.refused_call_reports_count_zero", n == 0)
 			return
 		}
 		vm.Assert("C14.read_succeeds_like_reference", err == nil || err == io.EOF)
@@ -179,6 +181,9 @@ func c14Step(h afero.File, ref *refFile, tag string) {
 		if ok && err == nil {
 			vm.Assert("C14.write_count", n == wn)
 		}
+		if !ok && err != nil {
+			vm.Assert("C14.refused_call_reports_count_zero", n == 0)
+		}
 	case 3: // WriteAt(p, off)
 		off := int64(vm.Int(tag+".off", 0, 5))
 		if ref.append {
@@ -198,9 +203,12 @@ func c14Step(h afero.File, ref *refFile, tag string) {
 		if ok && err == nil {
 			vm.Assert("C14.writeat_count", n == 1)
 		}
+		if !ok && err != nil {
+			vm.Assert("C14.refused_call_reports_count_zero", n == 0)
+		}
 	case 4: // Truncate(n)
 		n := int64(vm.Int(tag+".size", -1, 6))
-		if ref.write {
+		if ref.write && n >= 0 { // a negative size is refused before the handle enters write mode
 			vm.Known("C14-entering-write-mode-resets-cursor", ref.entering())
 			ref.wmode = true
 		}
